@@ -54,13 +54,25 @@ func (c18) Gen(r *simrt.Rand, idx int, tier string) *Case {
 	g.MaxSpan = 60
 	g.PAssert = 0.2
 	c := &Case{Gen: &g, Today: "2030-01-01", Files: map[string]string{}}
-	subs := []string{"format-1", "format-n", "infer-inplace", "format-1", "format-n", "infer-same", "format-rodir"}
+	subs := []string{"format-1", "format-n", "infer-inplace", "format-1", "format-n", "infer-same", "format-rodir", "format-symlink", "infer-symlink"}
 	c.Sub = subs[idx%len(subs)]
 	c.Scheds = []Sched{RandSched(r)}
 	switch c.Sub {
 	case "format-1", "format-rodir":
 		c.Files["/w/a.knut"] = messy(r, Gen(r, g))
 		c.Args = []string{"/w/a.knut"}
+	case "format-symlink":
+		// the journal is reached through a symbolic link
+		c.Files["/w/real/a.knut"] = messy(r, Gen(r, g))
+		c.Links = map[string]string{"/w/a.knut": "real/a.knut"}
+		c.Args = []string{"/w/a.knut"}
+	case "infer-symlink":
+		j := Gen(r, g)
+		accs := j.Accounts()
+		c.Files["/w/train.knut"] = messy(r, j)
+		c.Files["/w/real/t.knut"] = fmt.Sprintf("2021-01-02 \"%s\"\n%s   Expenses:TBD  %d CHF\n\n", descPool[r.Intn(len(descPool)-1)], accs[r.Intn(len(accs))], r.Range(1, 99))
+		c.Links = map[string]string{"/w/t.knut": "/w/real/t.knut"}
+		c.Args = []string{"-t", "/w/train.knut", "--inplace", "/w/t.knut"}
 	case "format-n":
 		n := r.Range(2, 4)
 		for i := 0; i < n; i++ {
@@ -133,6 +145,7 @@ func (c18) Eval(c *Case) (*Violation, bool) {
 	mk := func(f map[int]simrt.Fault) *Spec {
 		sp := c.specFor(s, c.Files, argv)
 		sp.Faults = f
+		sp.Links = c.Links
 		if c.Sub == "format-rodir" {
 			sp.ReadOnlyDirs = []string{"/w"}
 		}
@@ -149,6 +162,19 @@ func (c18) Eval(c *Case) (*Violation, bool) {
 		return &Violation{Signature: "abnormal-end:" + base.Outcome, Msg: cmd + " ended with " + base.Outcome + " " + base.PanicValue, Detail: base.PanicStack}, false
 	}
 	old := c.Files
+	if len(c.Links) > 0 {
+		// through the link a reader sees the linked journal; both paths must
+		// hold complete old or complete new contents afterwards
+		old = copyFiles(c.Files)
+		for l, t := range c.Links {
+			real := t
+			if !strings.HasPrefix(t, "/") {
+				real = dirOf(l) + "/" + t
+			}
+			old[l] = c.Files[real]
+			targets = append(targets, real)
+		}
+	}
 	newc := base.FS
 	changed := false
 	for _, t := range targets {
@@ -177,7 +203,7 @@ func (c18) Eval(c *Case) (*Violation, bool) {
 		return nil, false
 	}
 	// the fault-free run: a file that does not parse is bit-identical, the others are rewritten
-	for _, t := range targets {
+	for _, t := range (c18{}).targets(c) {
 		if strings.HasPrefix(old[t], "2020-01-01 opn ") {
 			if base.FS[t] != old[t] {
 				return &Violation{Signature: "unparseable-file-modified", Msg: t + " does not parse but was modified", Detail: firstDiff(old[t], base.FS[t])}, false
@@ -270,8 +296,9 @@ func (c18) Eval(c *Case) (*Violation, bool) {
 			}
 		}
 	}
-	// crashes: before every operation and after the last
-	for p := 0; p <= len(base.Trace); p++ {
+	// crashes: before every operation and after the last (the crash-image
+	// model does not know symbolic links: those workloads get faults only)
+	for p := 0; p <= len(base.Trace) && len(c.Links) == 0; p++ {
 		var tr []simrt.FsOp
 		if p < len(base.Trace) {
 			o := Run(mk(map[int]simrt.Fault{p: {Kind: "crash"}}))
